@@ -35,6 +35,10 @@ type Inl struct {
 	K string `json:"k"`
 	S string `json:"s,omitempty"` // text / code text / latex / url tail / escaped char / entity name
 	U bool   `json:"u,omitempty"` // em,st: underscore delimiters; hb: two-blank style
+	// N (t only): the words of S written N times, separated by one blank (long runs of text as plain data; 0 = once).
+	// The words of a "t" may be character-reference look-alikes ("&copy;", "&Copy;", "&#35;", "&copy"): the reading
+	// resolves exactly the ones CommonMark 2.5 calls references (see cref.go), everything else is literal text.
+	N int `json:"n,omitempty"`
 	C []Inl  `json:"c,omitempty"`
 }
 
@@ -52,7 +56,7 @@ type Blk struct {
 	Items  []Item `json:"items,omitempty"`
 	Loose  bool   `json:"loose,omitempty"`
 	Start  int    `json:"start,omitempty"`
-	Mark   string `json:"mark,omitempty"` // bullet char or hr char
+	Mark   string `json:"mark,omitempty"` // bullet char or hr char; ATX heading: "#" = closing sequence of hashes
 	B      []Blk  `json:"b,omitempty"`
 	Fenced bool   `json:"fenced,omitempty"`
 	// FIndent: a fenced block's fences are indented by 0-3 blanks. Lines are the RAW source lines; CommonMark
@@ -62,6 +66,8 @@ type Blk struct {
 	Tilde   bool      `json:"tilde,omitempty"`
 	Info    string    `json:"info,omitempty"`
 	Lines   []string  `json:"lines,omitempty"`
+	// Rep (code): source line i is Lines[i] written Rep[i] times in a row (long lines as plain data; missing or < 2 = once)
+	Rep []int `json:"rep,omitempty"`
 	Aligns  []string  `json:"aligns,omitempty"` // per column: "" left center right
 	Head    [][]Inl   `json:"head,omitempty"`
 	Rows    [][][]Inl `json:"rows,omitempty"`
@@ -79,6 +85,10 @@ type Case struct {
 	// input (a Converter is reusable: README converts a string and a file with one, BatchConvert many files).
 	// The expected result is that of the judged input alone.
 	Warm []string `json:"warm,omitempty"`
+	// fidelity: the canonical text is written with CRLF line endings / without the terminator of its last line
+	// (both are the same Markdown document: CommonMark 2.1 line endings)
+	CRLF  bool `json:"crlf,omitempty"`
+	NoEOL bool `json:"no_eol,omitempty"`
 }
 
 func (c Case) Bytes() []byte {
@@ -143,7 +153,7 @@ func mdOne(x Inl) string {
 	}
 	switch x.K {
 	case "t":
-		return x.S
+		return textOf(x)
 	case "em":
 		if x.U {
 			return wrap("_")
@@ -185,6 +195,34 @@ func mdOne(x Inl) string {
 		return "<" + x.S + ">"
 	}
 	return ""
+}
+
+// textOf: the source text of a "t" node
+func textOf(x Inl) string {
+	if x.N < 2 || x.S == "" {
+		return x.S
+	}
+	var sb strings.Builder
+	sb.Grow((len(x.S) + 1) * x.N)
+	for i := 0; i < x.N; i++ {
+		if i > 0 {
+			sb.WriteByte(' ')
+		}
+		sb.WriteString(x.S)
+	}
+	return sb.String()
+}
+
+// codeLines: the raw source lines of a code block
+func codeLines(b Blk) []string {
+	out := make([]string, len(b.Lines))
+	for i, l := range b.Lines {
+		out[i] = l
+		if i < len(b.Rep) && b.Rep[i] > 1 {
+			out[i] = strings.Repeat(l, b.Rep[i])
+		}
+	}
+	return out
 }
 
 func fenceIndent(b Blk) int {
@@ -251,7 +289,11 @@ func mdBlock(b Blk, afterList bool) []string {
 			}
 			return append(ls, "-----")
 		}
-		return []string{strings.Repeat("#", lv) + " " + strings.ReplaceAll(txt, "\n", " ")}
+		closing := ""
+		if b.Mark == "#" { // optional closing sequence: any number of hashes after a blank
+			closing = " " + strings.Repeat("#", 1+(lv+len(txt))%7)
+		}
+		return []string{strings.Repeat("#", lv) + " " + strings.ReplaceAll(txt, "\n", " ") + closing}
 	case "p":
 		return strings.Split(mdInl(b.I), "\n")
 	case "hr":
@@ -270,11 +312,11 @@ func mdBlock(b Blk, afterList bool) []string {
 			}
 			f = strings.Repeat(" ", fenceIndent(b)) + f
 			out := []string{f + b.Info}
-			out = append(out, b.Lines...)
+			out = append(out, codeLines(b)...)
 			return append(out, f)
 		}
 		var out []string
-		for _, l := range b.Lines {
+		for _, l := range codeLines(b) {
 			if l == "" {
 				out = append(out, "")
 			} else {
@@ -301,7 +343,7 @@ func mdBlock(b Blk, afterList bool) []string {
 			}
 			if b.K == "ol" {
 				st := b.Start
-				if st < 0 || st > 900 {
+				if st < 0 || st > 999999999-len(b.Items) { // an ordered list number has at most 9 digits
 					st = 1
 				}
 				marker = itoa(st+n) + ". "
@@ -389,7 +431,17 @@ func itoa(n int) string {
 	return s
 }
 
-func (c Case) Markdown() string { return strings.Join(mdBlocks(c.Doc), "\n") + "\n" }
+func (c Case) Markdown() string {
+	eol := "\n"
+	if c.CRLF {
+		eol = "\r\n"
+	}
+	s := strings.Join(mdBlocks(c.Doc), eol)
+	if c.NoEOL {
+		return s
+	}
+	return s + eol
+}
 
 // ---------------------------------------------------------------------------------------------
 // the "reading": what a faithful rendering has to show. Both references produce this structure.
@@ -462,7 +514,7 @@ func readInl(xs []Inl, f uint8) []ch {
 	for _, x := range xs {
 		switch x.K {
 		case "t":
-			out = append(out, strChars(x.S, f)...)
+			out = append(out, strChars(resolveRefs(textOf(x)), f)...)
 		case "em":
 			out = append(out, readInl(x.C, f|fI)...)
 		case "st":
@@ -521,7 +573,7 @@ func readBlk(b Blk, top int, out *[]xblk) {
 	case "math":
 		*out = append(*out, xblk{kind: "p", cs: collapse(strChars(b.S, fAny)), top: top})
 	case "code":
-		for _, l := range b.Lines {
+		for _, l := range codeLines(b) {
 			*out = append(*out, xblk{kind: "code", line: dedent(l, fenceIndent(b)), top: top})
 		}
 	case "bq":
